@@ -24,7 +24,7 @@ M_POST, M_REL = "conventional_2d_post", "normal_form_2d_relation"
 
 
 def floors(tier):
-    return {M_POST: 150 if tier == "quick" else 2500, M_REL: 100 if tier == "quick" else 1800}
+    return {M_POST: 600 if tier == "quick" else 10000, M_REL: 400 if tier == "quick" else 7000}
 
 
 def worker_init(lane):
@@ -33,7 +33,7 @@ def worker_init(lane):
 
 def gen_cases(tier, seed):
     ss = np.random.SeedSequence([seed, 11])
-    n, k = (70, 3) if tier == "quick" else (700, 5)
+    n, k = (260, 4) if tier == "quick" else (3000, 6)
     cases = []
     for lid, child in enumerate(ss.spawn(n)):
         s = int(child.generate_state(1)[0])
